@@ -38,6 +38,13 @@ def gen_cases(tier, seed):
         cases.append({"id": "NI/%d/%d" % (seed, j), "frame": {"seed": int(rng.integers(0, 2 ** 31)), "nrows": int(rng.integers(12, 60)), "cols": cols, "index": None},
                       "opts": {"file_scheme": ["simple", "hive"][j % 2], "row_group_offsets": [None, 7, 20][j % 3], "has_nulls": True, "stats": True},
                       "page_size": [None, 64][j % 2], "dpv": 1, "pseed": int(rng.integers(0, 2 ** 31)), "nprog": 40})
+    # time columns stored in seconds / milliseconds / microseconds, filtered with constants between two representable values
+    for j in range(16 if tier == "quick" else 200):
+        kinds_ = [["dt_s", "td_s"], ["dt_ms", "td_ms"], ["dt_us", "dt_s"], ["td_us", "dt_ms"]][j % 4]
+        cols = [{"name": "rid", "kind": "rid"}] + [{"name": "v%d" % k_, "kind": kd, "nulls": ["none", "p20"][(j + k_) % 2], "vals": "small"} for k_, kd in enumerate(kinds_)]
+        cases.append({"id": "TU/%d/%d" % (seed, j), "frame": {"seed": int(rng.integers(0, 2 ** 31)), "nrows": int(rng.integers(12, 40)), "cols": cols, "index": None},
+                      "opts": {"file_scheme": ["simple", "hive"][j % 2], "row_group_offsets": [None, 7][j % 2], "has_nulls": True, "stats": True},
+                      "page_size": None, "dpv": 1, "pseed": int(rng.integers(0, 2 ** 31)), "nprog": 6, "time_programs": True})
     # one handle kept across edits of the dataset made through it: the same filters before and after write_row_groups / remove_row_groups
     for j in range(30 if tier == "quick" else 500):
         c = D.random_dataset(rng, "KH/%d/%d" % (seed, j), scheme=["simple", "hive", "hive", "drill"][j % 4], pkinds=D.BENIGN_PKINDS,
@@ -184,8 +191,24 @@ def run_case(case):
             res["features"] = sorted(feats)
             res["sample"] = {"rows": n, "row_groups": len(rg_rows), **info, "kept_handle": case["kept_handle"]}
             return res
-        for k in range(case.get("nprog", 30)):
-            if k % 6 == 5:
+        explicit = []
+        if case.get("time_programs"):
+            # constants that carry a fraction finer than the unit a time column is stored in, under every operator
+            for c_ in flat.columns:
+                dt_ = flat[c_].dtype
+                if getattr(dt_, "kind", "") in "Mm" and not str(dt_).endswith("[ns]") and flat[c_].notna().any():
+                    vals_ = flat[c_].dropna()
+                    v_ = vals_.iloc[len(vals_) // 2]
+                    step = pd.Timedelta(250, "ms") if "[s" in str(dt_) else pd.Timedelta(250, "us") if "[ms" in str(dt_) else pd.Timedelta(250, "ns")
+                    for const_ in (v_ + step, v_ - step, v_ + 3 * step):
+                        for op_ in ("<", "<=", ">", ">=", "==", "!="):
+                            explicit.append([(str(c_), op_, const_)])
+                    explicit.append([[(str(c_), ">=", v_ - step), (str(c_), "<", v_ + step)], [(str(c_), "==", v_ + step)]])
+            counters["explicit_sub_unit_time_programs"] = len(explicit)
+        for k in range(max(case.get("nprog", 30), len(explicit))):
+            if explicit:
+                prog = explicit.pop()
+            elif k % 6 == 5:
                 # custom boolean mask
                 mk = ["rand", "none", "all", "one", "alt"][int(rng.integers(0, 5))]
                 mask = {"rand": rng.random(n) < 0.4, "none": np.zeros(n, bool), "all": np.ones(n, bool),
@@ -209,7 +232,8 @@ def run_case(case):
                 counters["masks_compared"] = counters.get("masks_compared", 0) + 1
                 feats.add(str(("mask", mk, case.get("dpv"), bool(case.get("page_size")))))
                 continue
-            prog = FG.make_program(rng, colinfo)
+            if not (case.get("time_programs") and counters.get("explicit_sub_unit_time_programs") and k < counters["explicit_sub_unit_time_programs"]):
+                prog = FG.make_program(rng, colinfo)
             desc = FG.describe(prog)
             ocols = [allcols[i] for i in rng.permutation(len(allcols))[:int(rng.integers(1, len(allcols) + 1))]]
             if "rid" not in ocols:
@@ -356,4 +380,4 @@ coverage_extra = c05.coverage_extra
 
 def required(tier):
     return {"programs_judged": 2000, "masks_compared": 300, "programs_with_partition_condition": 100, "flat_multi_condition_programs": 200,
-            "rows_selected": 5000, "kept_handle_edits": 30, "kept_handle_programs_judged": 200}
+            "rows_selected": 5000, "kept_handle_edits": 30, "kept_handle_programs_judged": 200, "explicit_sub_unit_time_programs": 300}
